@@ -61,18 +61,18 @@ Definition write_char_escape (e : char_escape) : bytes :=
      otherwise              -> if start < i { write_string_fragment(value[start..i]) }
                                write_char_escape(from_escape_table(escape, byte)); start = i + 1
    after the loop: if start == bytes.len() { return } ; write_string_fragment(value[start..]) *)
-Definition flush (rfrag : bytes) : list bytes := match rfrag with [] => [] | _ => [rev_append rfrag []] end.
+Definition frag_buf (rfrag : bytes) : list bytes := match rfrag with [] => [] | _ => [rev_append rfrag []] end.
 
 Fixpoint contents_loop (rfrag : bytes) (l : bytes) : res (list bytes) :=
   match l with
-  | [] => Ok (flush rfrag)
+  | [] => Ok (frag_buf rfrag)
   | b :: r =>
     let escape := escape_of b in
     if escape =? 0 then contents_loop (b :: rfrag) r
     else
       let* ce := from_escape_table escape b in
       let* out := contents_loop [] r in
-      Ok (flush rfrag ++ write_char_escape ce :: out)
+      Ok (frag_buf rfrag ++ write_char_escape ce :: out)
   end.
 
 Definition format_escaped_str_contents (value : bytes) : res (list bytes) := contents_loop [] value.
